@@ -124,7 +124,10 @@ CHECKS = {
             "Theorems: cancel_event/cancel_events select exactly the tracked sources with equal id / name (by value), "
             "touch no other source; lock held iff posting; after the cancelling call returns the source never places "
             "another event under any continuation schedule. Witnesses for the earlier code (identity comparison, "
-            "unlocked check-then-post).", "§8 C11", NOTE_CONC),
+            "unlocked check-then-post). The tracked-source list under concurrent timed posts and cancels (model Conc.Track, "
+            "one step per list access): every source whose flag is set is in the list, in every reachable state; any "
+            "schedule has the outcome of its calls executed one after the other in lock-acquisition order; a cancel removes "
+            "exactly the matching records; witness for the list without its lock.", "§8 C11", NOTE_CONC),
     "C12": ("Lean 4 proofs on the AO system model + schedule-replay correspondence",
             "Theorems: stop()'s join completes only when the consumer thread has finished; afterwards no step changes the "
             "dispatch log; the run flag stays cleared; every tracked source is cancelled and silent. Handlers that arm timed "
